@@ -5,6 +5,7 @@ import (
 	"encoding/json"
 	"fmt"
 	"runtime"
+	"runtime/debug"
 	"sync"
 	"sync/atomic"
 	"testing"
@@ -26,6 +27,7 @@ import (
 type caseC15 struct {
 	Value *uint32 `json:"value,omitempty"` // encode + round trip of a value
 	Seq   Hex     `json:"seq,omitempty"`   // decoder agreement on a byte sequence
+	Note  string  `json:"note,omitempty"`  // found by the use-site stage (re-run as a whole on replay)
 }
 
 type vbiWorker struct {
@@ -186,6 +188,14 @@ func TestC15(t *testing.T) {
 		var c caseC15
 		if err := json.Unmarshal(rf.Case, &c); err != nil {
 			t.Fatalf("replay %s: %v", rf.Source, err)
+		}
+		if c.Note != "" {
+			before := r.Failed()
+			useSiteStage(r)
+			if !before && r.Failed() {
+				continue // reported by the stage itself
+			}
+			continue
 		}
 		_, msg := checkC15(c)
 		r.Case(vf.FPs("replay", string(rf.Case)), true, "replay", func() interface{} { return c })
@@ -422,4 +432,87 @@ func TestC15(t *testing.T) {
 			t.Fatalf("%s", msg)
 		}
 	})
+
+	useSiteStage(r)
+}
+
+// headWriter keeps the first bytes and counts the rest.
+type headWriter struct {
+	head []byte
+	n    int64
+}
+
+func (w *headWriter) Write(p []byte) (int, error) {
+	if len(w.head) < 16 {
+		k := 16 - len(w.head)
+		if k > len(p) {
+			k = len(p)
+		}
+		w.head = append(w.head, p[:k]...)
+	}
+	w.n += int64(len(p))
+	return len(p), nil
+}
+
+// useSiteStage checks the largest forms where the library uses them.
+func useSiteStage(r *vf.Rec) {
+	const maxV = 1 << 28
+	// the largest forms at their use sites: a property length of four bytes
+	// (2 097 152 bytes of properties and next to it), written and read back,
+	// and the largest remaining length MQTT allows written through WriteTo
+	for _, target := range []int{2097151, 2097152, 2097153} {
+		pm := model.New(model.PUBLISH)
+		pm.TopicName = "t"
+		// each user property takes 1 + 2 + len(key) + 2 + len(value) bytes
+		total := 0
+		for total+60006+1000 < target {
+			pm.UserProps = append(pm.UserProps, model.KV{K: "k", V: string(bytes.Repeat([]byte{'v'}, 60000))})
+			total += 60006
+		}
+		pm.UserProps = append(pm.UserProps, model.KV{K: "k", V: string(bytes.Repeat([]byte{'w'}, target-total-6))})
+		pm.Normalize()
+		want := ref.Canonical(&pm)
+		_, hdr, _ := ref.FrameLen(want)
+		if pl := ref.VBI(uint32(target)); !bytes.Equal(want[hdr+3:hdr+3+len(pl)], pl) {
+			r.Fail("harness", caseC15{Note: "harness"}, "harness", "use-site stage: the reference frame does not carry property length %d: %s", target, hx(want[:14]))
+			break
+		}
+		got, _, err, pan := write(api.BuildDefault(&pm))
+		r.Case(vf.FPs("proplen", fmt.Sprint(target)), true, "public-api/four-byte-property-length", func() interface{} {
+			return map[string]interface{}{"property_length": target, "frame_bytes": len(want)}
+		})
+		if pan != nil || err != nil || !bytes.Equal(got, want) {
+			r.Fail("vbi", caseC15{Note: fmt.Sprintf("property length %d", target)}, "public-api:proplen-write", "PUBLISH with %d bytes of properties: WriteTo gives %d bytes starting %s, reference %d bytes starting %s (%v %v)", target, len(got), hx(got[:min(len(got), 12)]), len(want), hx(want[:12]), err, pan)
+			break
+		}
+		q, err, pan := read(want)
+		if pan != nil || err != nil || q == nil {
+			r.Fail("vbi", caseC15{Note: fmt.Sprintf("property length %d", target)}, "public-api:proplen-read", "a valid PUBLISH with %d bytes of properties (property length field %s) is rejected: %v %v", target, hx(ref.VBI(uint32(target))), err, pan)
+			break
+		}
+		if d := model.Diff(api.Observe(q), expectAfterWire(pm)); d != "" {
+			r.Fail("vbi", caseC15{Note: fmt.Sprintf("property length %d", target)}, "public-api:proplen-read", "PUBLISH with %d bytes of properties read back differently: %s", target, d)
+			break
+		}
+	}
+	for _, rl := range []int{maxV - 5, maxV - 1} {
+		pm := model.New(model.PUBLISH)
+		pm.TopicName = "t"
+		padToRemainingLength(&pm, rl)
+		p := api.BuildDefault(&pm)
+		w := &headWriter{}
+		var n int64
+		var err error
+		pan := guard.Call(func() { n, err = p.WriteTo(w) })
+		wantHead := append([]byte{0x30}, ref.VBI(uint32(rl))...)
+		r.Case(vf.FPs("maxrl", fmt.Sprint(rl)), true, "public-api/largest-remaining-length", func() interface{} {
+			return map[string]interface{}{"remaining_length": rl, "head": hx(w.head)}
+		})
+		pm.Payload, p = nil, nil
+		debug.FreeOSMemory()
+		if pan != nil || err != nil || n != int64(1+4+rl) || w.n != n || !bytes.Equal(w.head[:min(len(w.head), 5)], wantHead) {
+			r.Fail("vbi", caseC15{Note: fmt.Sprintf("remaining length %d", rl)}, "public-api:largest-remaining-length", "PUBLISH with remaining length %d (MQTT allows up to 268 435 455): WriteTo returned n=%d err=%v panic=%v, the writer saw %d bytes starting %s, want %d bytes starting %s", rl, n, err, pan, w.n, hx(w.head), 1+4+rl, hx(wantHead))
+			break
+		}
+	}
 }
